@@ -47,6 +47,11 @@ fn run_once(data: &Path, dump: &Path, coin_name: &str, cb: &str, prefix: &[usize
 /// `workers` = 0: thread-per-task mode (orders only); > 0: worker-pool mode (orders x worker assignment, thread-local
 /// state persists per worker). The pool outcome is mapped onto sched::Outcome (order = (task, worker) pairs flattened).
 fn run_once_mode(data: &Path, dump: &Path, coin_name: &str, cb: &str, prefix: &[usize], workers: usize) -> (RunResult, sched::Outcome) {
+    run_once_policy(data, dump, coin_name, cb, prefix, workers, 0)
+}
+
+/// `policy`: rule for the choice points after the prefix (worker-pool mode only; see rayon::pool::run_policy).
+fn run_once_policy(data: &Path, dump: &Path, coin_name: &str, cb: &str, prefix: &[usize], workers: usize, policy: usize) -> (RunResult, sched::Outcome) {
     let _ = std::fs::remove_dir_all(dump);
     std::fs::create_dir_all(dump).unwrap();
     LOGBUF.lock().unwrap().clear();
@@ -73,7 +78,7 @@ fn run_once_mode(data: &Path, dump: &Path, coin_name: &str, cb: &str, prefix: &[
     let (res, outcome) = if workers == 0 {
         sched::run(prefix, body)
     } else {
-        let (r, o) = rayon::pool::run(prefix, workers, body);
+        let (r, o) = rayon::pool::run_policy(prefix, workers, policy, body);
         (r, sched::Outcome { choices: o.choices, order: o.trace.iter().flat_map(|(t, w)| [*t, *w]).collect(), regions: 0, tasks: 0, diverged: o.diverged })
     };
     let _ = std::io::stdout().flush();
@@ -567,4 +572,68 @@ fn pool_part(rep: &mut Report, root: &Path) {
         let _ = std::fs::remove_dir_all(&wdir);
     }
     rep.bound["worker_pool_mode"] = Value::Object(summary);
+    big_block_part(rep, root);
+}
+
+/// A block with more transactions than any plausible batch size (4100 / 36 900), where the schedule tree cannot be
+/// enumerated: a stated FAMILY of schedules instead - after an empty prefix the scheduler always takes the first enabled
+/// action, always the last (newest task first, i.e. every region in reverse), or action (k * position + 1) mod n for k in
+/// {2, 7, 4099}; x 1, 2 and 3 workers (quick: four of these combinations); x all five callbacks. Exhaustive over that
+/// family only, and labelled so.
+fn big_block_part(rep: &mut Report, root: &Path) {
+    let c = coin("bitcoin");
+    let n_tx: usize = if is_thorough() { 36_900 } else { 4_100 };
+    let mut cb = ChainBuilder::with_genesis(c);
+    let mut txs = vec![coinbase(1, 3, vec![pay(1, 50 * COIN_VALUE)])];
+    let mut prev: Option<[u8; 32]> = None;
+    for k in 0..n_tx {
+        // every transaction spends an output of its predecessor in the same block (order matters for the UTXO callbacks),
+        // pays a fresh address, and every 7th carries an OP_RETURN
+        let mut outs = vec![pay((k % 250) as u8, 1000 + k as u64), pay(((k + 1) % 250) as u8, 5)];
+        if k % 7 == 0 {
+            outs.push(TxOut { value: 0, script: script::op_return(format!("tx {}", k).as_bytes()) });
+        }
+        let tx = Tx { version: 1, segwit: false, inputs: vec![match prev { Some(p) => TxIn::spend(p, 0), None => TxIn::spend([0xee; 32], 0) }], outputs: outs, locktime: k as u32 };
+        prev = Some(tx.txid());
+        txs.push(tx);
+    }
+    cb.push(txs);
+    let world = World::simple(c, &cb.blocks, 0);
+    let wdir = root.join("bigblock");
+    let data = wdir.join("data");
+    if let Err(e) = world.materialise(&data) {
+        rep.machinery(format!("materialise: {}", e));
+        return;
+    }
+    let dump = wdir.join("dump");
+    let mut n = 0u64;
+    let mut traces = BTreeSet::new();
+    for cbn in ["csvdump", "unspentcsvdump", "balances", "simplestats", "opreturn"] {
+        let (r0, _) = run_once_policy(&data, &dump, "bitcoin", cbn, &[], 1, 0);
+        let baseline = observe(&r0, &wdir);
+        if r0.code != Some(0) {
+            rep.machinery(format!("big-block world: baseline {} run failed: {}", cbn, r0.stderr.chars().take(200).collect::<String>()));
+            continue;
+        }
+        let family: Vec<(usize, usize)> = if is_thorough() { [1usize, 2, 3].iter().flat_map(|w| [0usize, 1, 2, 7, 4099].iter().map(move |p| (*w, *p))).collect() } else { vec![(2, 0), (2, 1), (2, 7), (3, 1)] };
+        'outer: for (workers, policy) in family {
+            {
+                let (r, oc) = run_once_policy(&data, &dump, "bitcoin", cbn, &[], workers, policy);
+                n += 1;
+                traces.insert(h8(format!("{:?}", oc.order).as_bytes()));
+                let o = observe(&r, &wdir);
+                if o != baseline {
+                    rep.disagree("big-block:outcome-depends-on-schedule", format!("{} on a block of {} transactions, {} workers, schedule policy {}: output differs from the 1-worker first-enabled schedule", cbn, n_tx, workers, policy), json!({"kind": "pool-policy-schedule", "world": format!("one block of {} chained transactions", n_tx), "callback": cbn, "workers": workers, "policy": policy}));
+                    break 'outer;
+                }
+            }
+        }
+    }
+    rep.states += n;
+    rep.transitions += n;
+    for t in &traces {
+        rep.nontrivial.insert(*t);
+    }
+    rep.bound["big_block_schedule_family"] = json!({"transactions": n_tx, "schedules": n, "distinct_traces": traces.len(), "family": if is_thorough() { "policies {first, last, stride 2, 7, 4099} x workers {1,2,3} x 5 callbacks (not the full schedule tree)" } else { "(workers, policy) in {(2, first), (2, last), (2, stride 7), (3, last)} x 5 callbacks (not the full schedule tree)" }});
+    let _ = std::fs::remove_dir_all(&wdir);
 }
